@@ -114,6 +114,25 @@ HasBref(r) ==
     [] r.k \in {"seq","alt"} -> \E x \in 1..Len(r.xs) : HasBref(r.xs[x])
     [] r.k \in {"grp","ncg","rep"} -> HasBref(r.r)
     [] OTHER -> FALSE
+(* A group under an optional quantifier (min = 0) that itself sits inside a loop: when a later iteration of *)
+(* the loop takes the optional part zero times, Perl/PCRE/Java keep what an earlier iteration captured,    *)
+(* ECMAScript (and the QT3 expectation test_p303, ^((.)?a\2)+$ on babadad) forget it.  Captures of such    *)
+(* patterns - and, through back-references, their language - are UNSPEC.                                  *)
+RECURSIVE HasGrp(_), OptGrp(_), IterAmbig(_)
+HasGrp(r) == CASE r.k = "grp" -> TRUE
+               [] r.k \in {"seq","alt"} -> \E x \in 1..Len(r.xs) : HasGrp(r.xs[x])
+               [] r.k \in {"ncg","rep"} -> HasGrp(r.r)
+               [] OTHER -> FALSE
+OptGrp(r) ==                                  \* some rep node with min = 0 has a group in its body
+  CASE r.k = "rep" -> (r.min = 0 /\ HasGrp(r.r)) \/ OptGrp(r.r)
+    [] r.k \in {"seq","alt"} -> \E x \in 1..Len(r.xs) : OptGrp(r.xs[x])
+    [] r.k \in {"grp","ncg"} -> OptGrp(r.r)
+    [] OTHER -> FALSE
+IterAmbig(r) ==
+  CASE r.k = "rep" -> ((r.max = -1 \/ r.max >= 2) /\ OptGrp(r.r)) \/ IterAmbig(r.r)
+    [] r.k \in {"seq","alt"} -> \E x \in 1..Len(r.xs) : IterAmbig(r.xs[x])
+    [] r.k \in {"grp","ncg"} -> IterAmbig(r.r)
+    [] OTHER -> FALSE
 NodeCount(r) ==
   1 + CASE r.k \in {"seq","alt"} -> FoldLeft(LAMBDA a, x : a + NodeCount(x), 0, r.xs)
         [] r.k \in {"grp","ncg","rep"} -> NodeCount(r.r)
@@ -124,13 +143,48 @@ IsMatchAt(r, ng, s, i, F) == Paths(r, s, i, NoCaps(ng), F) # {}
 IsMatch(r, ng, s, F) == \E i \in 1..Len(s)+1 : IsMatchAt(r, ng, s, i, F)
 Nullable(r, ng, F) == IsMatchAt(r, ng, <<>>, 1, F)            \* matches the zero-length string (C16)
 
+(* ---- the first success of Ord, computed by backtracking with an explicit continuation ------- *)
+(* todo = sequence of work items: AST nodes, [k |-> "close", n, st] (end of group n opened at st), *)
+(* [k |-> "iter", r, cnt] (decide about one more iteration of rep node r after cnt iterations),    *)
+(* [k |-> "idone", r, cnt, st] (an iteration that started at st has just ended).                   *)
+(* Run returns <<>> (no match) or <<end, caps>>: the FIRST element of the list-of-successes of the *)
+(* whole continuation, without enumerating the others (theorem T2b: = Head(Ord) on the whole       *)
+(* enumerated space).  This is what makes long inputs affordable in trace validation.              *)
+RECURSIVE Run(_,_,_,_,_), RunAlt(_,_,_,_,_,_,_)
+Run(todo, s, i, caps, F) ==
+  IF todo = <<>> THEN <<i, caps>>
+  ELSE LET r == todo[1]  rest == Tail(todo) IN
+  CASE r.k \in {"chr","dot","cls","bol","eol","bref"} ->
+         LET p == Paths(r, s, i, caps, F) IN
+         IF p = {} THEN <<>> ELSE LET x == CHOOSE y \in p : TRUE IN Run(rest, s, x[1], x[2], F)
+    [] r.k = "seq" -> Run(r.xs \o rest, s, i, caps, F)
+    [] r.k = "alt" -> RunAlt(r.xs, 1, rest, s, i, caps, F)
+    [] r.k = "ncg" -> Run(<<r.r>> \o rest, s, i, caps, F)
+    [] r.k = "grp" -> Run(<<r.r, [k |-> "close", n |-> r.n, st |-> i]>> \o rest, s, i, caps, F)
+    [] r.k = "close" -> Run(rest, s, i, [caps EXCEPT ![r.n] = <<r.st, i>>], F)
+    [] r.k = "rep" -> Run(<<[k |-> "iter", r |-> r, cnt |-> 0]>> \o rest, s, i, caps, F)
+    [] r.k = "iter" ->
+         LET more == IF r.r.max = -1 \/ r.cnt < r.r.max
+                     THEN Run(<<r.r.r, [k |-> "idone", r |-> r.r, cnt |-> r.cnt, st |-> i]>> \o rest, s, i, caps, F)
+                     ELSE <<>>
+             stop == IF r.cnt >= r.r.min THEN Run(rest, s, i, caps, F) ELSE <<>>
+         IN IF r.r.lazy THEN (IF stop # <<>> THEN stop ELSE more) ELSE (IF more # <<>> THEN more ELSE stop)
+    [] r.k = "idone" ->
+         IF i = r.st /\ r.cnt >= r.r.min THEN <<>>                \* an empty iteration is not continued
+         ELSE Run(<<[k |-> "iter", r |-> r.r, cnt |-> r.cnt + 1]>> \o rest, s, i, caps, F)
+RunAlt(xs, x, rest, s, i, caps, F) ==
+  IF x > Len(xs) THEN <<>>
+  ELSE LET a == Run(<<xs[x]>> \o rest, s, i, caps, F) IN
+       IF a # <<>> THEN a ELSE RunAlt(xs, x + 1, rest, s, i, caps, F)
+FirstAt(r, ng, s, i, F) == Run(<<r>>, s, i, NoCaps(ng), F)
+
 RECURSIVE FirstFrom(_,_,_,_,_)
 (* leftmost start >= from with a match, and the ordered-choice preferred match there: *)
 (* [st, en, caps], or <<>> when there is none                                          *)
 FirstFrom(r, ng, s, from, F) ==
   IF from > Len(s) + 1 THEN <<>>
-  ELSE LET o == Ord(r, s, from, NoCaps(ng), F) IN
-       IF o # <<>> THEN [st |-> from, en |-> o[1][1], caps |-> o[1][2]]
+  ELSE LET o == FirstAt(r, ng, s, from, F) IN
+       IF o # <<>> THEN [st |-> from, en |-> o[1], caps |-> o[2]]
        ELSE FirstFrom(r, ng, s, from + 1, F)
 
 RECURSIVE AllFrom(_,_,_,_,_,_)
